@@ -57,3 +57,13 @@ package common
 //@ emits wroteFile(name, perm)
 //@ extern os.MkdirAll
 //@ extern os.ReadFile
+
+//@ event intermediateBuilt()
+//@ event severityFiltered(nonEmpty bool, askedForErrors bool)
+
+// json5.Unmarshal writes only through the pointer it is given (assumed).
+//@ extern github.com/titanous/json5.Unmarshal
+//@ modifies boxed(v)
+
+// The event discipline is closed over the whole repository (see /verif/gvc/events.go).
+//@ check events-closed props C08,C09,C10,C20
